@@ -248,6 +248,15 @@ def run_check(cid, tier, cfg):
     for u, log in soft:
         viols.append(dict(unit=u['name'], idx=-1, key='compile', desc='unit %s does not compile' % u['name'], msg=log[-3000:]))
 
+    counters['units_compiled'] = len(units)
+    if not cfg.get('report_uninit'):
+        # A read of a default-constructed exact scalar is either a read of 'T x;' (indeterminate for built-in
+        # types) or of a value-initialised 'T{}' (zero for built-in types); the archetype cannot tell them
+        # apart, so only C19 (which forbids relying on either) reports it. The scalar reads as zero.
+        nu = len([v for v in viols if v['key'] == 'uninit'])
+        viols = [v for v in viols if v['key'] != 'uninit']
+        if nu:
+            counters['default_constructed_scalar_reads_not_reported_here'] = nu
     if 'viol_filter' in cfg:
         dropped = [v for v in viols if not cfg['viol_filter'](v)]
         viols = [v for v in viols if cfg['viol_filter'](v)]
